@@ -118,6 +118,14 @@ CHECKS.update({
         engine="E1-tlc + E3-trace", ref="DESIGN.md 6 C19"),
 })
 
+CHECKS.update({
+    "C17": dict(
+        text="spec/DirectInvoke.tla models ReceiveDirectInvoke over its four package variables and header classes; the state graph is finite, so TLC checks HistoryIndependent (a request's result equals its result on a fresh emulator) for all request sequences, and must exhibit the violation for the parser as found (vacuity guard). Every edge of the graph (65 088) is replayed on the real function (result, parsed mode, package variables, status, Error-Type, trailer announcement). Copy: TLC enumerates size x limit x chunking x read-failure cases with their classification; each runs through SendDirectInvokeResponse in buffered and streaming mode with a stamping writer (trailer class, forwarded length, byte-for-byte prefix); spec/TokenBucket.tla gives RateBound and termination for every chunking, and the streaming runs are checked against burst + rate x t on their write time stamps; a reset during a throttled copy must end it Truncated.",
+        note="Trusted: TLC, httptest recorder / stamping writer. One representative value per header class; rate bound with one refill quantum of slack; resets injected at one copy point per case.",
+        technique="TLA+ transcription + TLC; state-graph edge cover replayed on the real parser; TLC-enumerated copy cases; stamped rate check",
+        engine="E1-tlc + E2-walk/cases", ref="DESIGN.md 6 C17"),
+})
+
 NA = {
 }
 
